@@ -13,6 +13,7 @@ import (
 	"strings"
 	"testing"
 	"testing/synctest"
+	"time"
 
 	zxcvbn "github.com/nbutton23/zxcvbn-go"
 	"github.com/whawty/auth/zz_verif/vlib"
@@ -185,6 +186,9 @@ func runC12(c c12Case) string {
 		pl, ok := vlib.ParseLine(first)
 		if !ok || !c.Cfg.Canonical(first) || pl.PID != c.Cfg.Default {
 			return fmt.Sprintf("VIOLATION C12: [%s] upgraded record of %q is not a well-formed record of the default set %d: %s", where, u.Name, c.Cfg.Default, vlib.Q(first))
+		}
+		if now := time.Now().Unix(); pl.TS > now || pl.TS < now-2 {
+			return fmt.Sprintf("VIOLATION C12: [%s] upgraded record of %q carries time %d, the current time is %d", where, u.Name, pl.TS, now)
 		}
 		if !c.Cfg.Verify(first, u.PW) {
 			return fmt.Sprintf("VIOLATION C12: [%s] upgraded record of %q does not verify for the same password (independent recomputation)", where, u.Name)
